@@ -473,6 +473,9 @@ def extract_file(path):
     tu = cast.TU(path, REPO)
     enums = tu.all_enumerators()
     out = {"file": rel, "tables": [], "functions": [], "statics": [], "field_enum": None}
+    stem = os.path.splitext(os.path.basename(path))[0]
+    hdrs = [h for h in header_list() if os.path.splitext(os.path.basename(h))[0] == stem]
+    out["header"] = hdrs[0] if hdrs else None
     # tables and statics
     for f, n in tu.top:
         if n.get("kind") == "VarDecl" and f == path:
